@@ -49,7 +49,7 @@ def tsafeD : FieldDecl → Bool
   | .enumCls _ names => !names.contains ""
   | .seqOf .list item _ => isArrScalar item || (isClassRef item && tsafeD item)
   | .seqOf .deque _ _ => false
-  | .setOf _ item _ => isSetScalarOk item || (isEnumDecl item && tsafeD item)
+  | .setOf _ item _ => isSetScalarOk item
   | .struct c fields _ =>
     !c.inline && strNodup (fields.map (·.1)) && !classCrash fields && tsafeFields fields
   | .anyOf _ => false
@@ -184,7 +184,7 @@ def defectsD : FieldDecl → List String
     else ["ineligible-shape"]
   | .setOf _ item _ =>
     if isSetScalarOk item then []
-    else if isEnumDecl item then defectsD item
+    else if isEnumDecl item then "set-of-enum:unproved" :: defectsD item
     else if isClassRef item then "none-attribute-hash:set-of-structures" :: defectsD item
     else if isSetScalar item then ["set-of-none:unproved"]
     else ["dropped:set-items"]
